@@ -133,7 +133,7 @@ def validate_traces(ctx, tables, traces, name, workers=None, debug=False):
     out = [None] * len(traces)
     for item in r.prints('ACC'):
         tid, phase, flags = item[0], item[1], item[2]
-        out[tid - 1] = (phase, flags)
+        out[tid - 1] = (phase, flags, item[3] if len(item) > 3 else [])
     if debug:
         at = {}
         for item in r.prints('AT'):
